@@ -102,6 +102,54 @@ def gen_program(rnd, pid, cls='A', nrt_only=False, feats=('send', 'tempo', 'spaw
                                      tail=rnd.choice([0, TU, TU // 2]), cls=cls))
 
 
+def gen_rand_program(rnd, pid):
+    """random-stream isolation and inheritance: a seeded parent draws, creates children that inherit its
+    generator or get their own seed (set by themselves or by the parent, as Pseed does), everybody keeps drawing"""
+    clocks = {'t1': rnd.choice(TEMPI)} if rnd.random() < 0.4 else {}
+    c0 = rnd.choice(['sys'] + list(clocks))
+    n = rnd.randint(2, 4)
+    names = ['r%d' % i for i in range(n)]
+    bodies = {r: [] for r in names}
+    seedn = [0]
+
+    def seed():
+        seedn[0] += 1
+        return 1000 * (pid % 1000) + 500 + seedn[0]
+
+    def draws(b):
+        for _ in range(rnd.randint(1, 3)):
+            b.append(I('D'))
+    root = bodies['r0']
+    sd = seed()
+    root.append(I('K', a=sd, s=str(sd)))
+    draws(root)
+    for k in names[1:]:
+        parent = bodies[rnd.choice(names[:names.index(k)])]
+        kb = bodies[k]
+        mode = rnd.choice(['inherit', 'self', 'parent'])
+        if mode == 'parent':
+            sd = seed()
+            parent.append(I('KC', c=k, a=sd, s=str(sd)))
+        parent.append(I('P', s=k, c=''))
+        if rnd.random() < 0.5:
+            parent.append(I('Y', a=rnd.choice(DELTAS)))
+        draws(parent)
+        if mode == 'self':
+            if rnd.random() < 0.5:
+                draws(kb)
+            sd = seed()
+            kb.append(I('K', a=sd, s=str(sd)))
+        draws(kb)
+        if rnd.random() < 0.6:
+            kb.append(I('Y', a=rnd.choice(DELTAS)))
+            draws(kb)
+    for b in bodies.values():
+        if rnd.random() < 0.5:
+            b.append(I('Y', a=rnd.choice(DELTAS)))
+            draws(b)
+    return dict(id=pid, clocks=clocks, routines=bodies, main=[I('P', s='r0', c=c0)], tail=0, cls='B')
+
+
 def fix_seed_inheritance(prog):
     """D instructions are only meaningful under a seeded generator: drop draws that would use the unseeded
     main generator (a routine inherits the generator of the routine that played it, at that moment)."""
@@ -169,6 +217,6 @@ def nontrivial(prog):
     """program with a tempo change, a cross-clock spawn or a nested/None-latency send"""
     for body in prog['routines'].values():
         for i in body:
-            if i['op'] in ('T', 'X', 'K') or (i['op'] == 'P' and i['c']) or (i['op'] == 'S' and (i['nk'] or i['b'])):
+            if i['op'] in ('T', 'X', 'K', 'KC') or (i['op'] == 'P' and i['c']) or (i['op'] == 'S' and (i['nk'] or i['b'])):
                 return True
     return False
